@@ -1,7 +1,7 @@
 (* C16 — hierarchical equations: complete index set, consistent links, valid states.
    Statements only; proofs in Proofs/C16.v, Proofs/C16rhs.v and Proofs/C16diag.v, model in Model/C16.v. *)
 From Coq Require Import ZArith List Bool Arith.
-From QV Require Import Base.Alg Base.Sums Base.Mat Base.Taylor Model.C16 Proofs.C16 Proofs.C16rhs Proofs.C16count Proofs.C16diag.
+From QV Require Import Base.Alg Base.Sums Base.Mat Base.Taylor Model.C16 Proofs.C16 Proofs.C16rhs Proofs.C16count Proofs.C16diag Proofs.C16sysops.
 Import ListNotations.
 
 (* level j of the generated hierarchy holds every multi-index over N baths of total order j, each once:
@@ -117,6 +117,22 @@ Proof.
   exact (heom_elementwise dim nb H HH Vs ii lam gam kBT two h1 h2 prefs nsteps ado0 a b Ha Hb).
 Qed.
 Print Assumptions c16_uncoupled_sites_decouple_elementwise.
+
+(* the system parts of the bath couplings as the builders make them - stores of 1 on the diagonal of a zero operator, extracted from
+   Aggregate._build and Molecule.get_SystemBathInteraction on every run (generated lemmas gen_agg_sysop_is_projector,
+   gen_mol_sysop_is_projector) - are diagonal projectors: the hypothesis the two theorems above place on the couplings *)
+Theorem c16_system_operators_are_diagonal_projectors : forall (R : StarRing) dim,
+  (forall js, diagonal dim (site_projector (R := R) js) /\
+              meq dim (mmul dim (site_projector (R := R) js) (site_projector js)) (site_projector js) /\
+              (forall a b, stores_skel (R := R) (fun j => j) (fun j => j) js a b = site_projector js a b)) /\
+  (forall lo hi, diagonal dim (block_projector (R := R) lo hi) /\
+                 (forall a b, block_skel (R := R) lo hi lo hi (hi - lo) a b = block_projector lo hi a b)).
+Proof.
+  intros R dim. split.
+  - intros js. split; [apply site_projector_diagonal|]. split; [apply site_projector_idempotent|apply stores_skel_is_projector].
+  - intros lo hi. split; [apply block_projector_diagonal|apply block_skel_is_projector].
+Qed.
+Print Assumptions c16_system_operators_are_diagonal_projectors.
 
 (* non-vacuity: projectors on two sites are diagonal (over the integers) *)
 Example c16_example_uncoupled :
